@@ -239,6 +239,7 @@ Fixpoint dedup (l : list name) : list name :=
 Record info := {
   i_fresh : name;
   i_declared : list name;
+  i_nonvars : list name;          (* names of functions and Kombinationen: visible, but not variables *)
   i_priv_vars : list name;        (* non-public variables and constants of the imported module *)
   i_priv_funs : list name;
   i_priv_fields : list name;
@@ -249,6 +250,8 @@ Definition info_of (p : prog) : info :=
   let M := p_mod p in
   {| i_fresh := fresh p;
      i_declared := dedup (flat_map dn_top (p_tops p));
+     i_nonvars := dedup (flat_map (fun t => match t with TFun f => [f_name f] | TStmt _ => [] end) (p_tops p) ++
+                         flat_map (fun d => match d with IFun _ f _ _ => [f] | IStruct _ s _ _ => [s] | _ => [] end) M);
      i_priv_vars := flat_map (fun d => match d with IVar false x _ | IConst false x _ => [x] | _ => [] end) M;
      i_priv_funs := flat_map (fun d => match d with IFun false f _ _ => [f] | _ => [] end) M;
      i_priv_fields := dedup (flat_map (fun d => match d with
@@ -371,8 +374,8 @@ Definition gen_of (fc : fault) (I : info) : gen :=
                                     | _ => [] end;
          g_ins := g_ins no_gen; g_fun := g_fun no_gen; g_top := g_top no_gen; g_imp := g_imp no_gen |}
   | FOutOfScope =>
-      {| g_expr := fun _ _ e => match e with EVar _ => map EVar (i_declared I) | _ => [] end;
-         g_stmt := fun _ _ _ _ s => match s with SAssign _ e => map (fun y => SAssign y e) (i_declared I) | _ => [] end;
+      {| g_expr := fun _ _ e => match e with EVar _ => map EVar (i_declared I ++ i_nonvars I) | _ => [] end;
+         g_stmt := fun _ _ _ _ s => match s with SAssign _ e => map (fun y => SAssign y e) (i_declared I ++ i_nonvars I) | _ => [] end;
          g_ins := g_ins no_gen; g_fun := g_fun no_gen; g_top := g_top no_gen; g_imp := g_imp no_gen |}
   | FRedeclare =>
       {| g_expr := g_expr no_gen; g_stmt := g_stmt no_gen;
